@@ -19,7 +19,6 @@ import (
 	"fmt"
 	"reflect"
 	"strings"
-	"time"
 
 	gio "github.com/whatap/golib/io"
 	"github.com/whatap/golib/lang/pack"
@@ -29,8 +28,6 @@ import (
 	"github.com/whatap/golib/util/list"
 	"verif/harness/vh"
 )
-
-const accessTimeout = 1500 * time.Millisecond
 
 type access struct {
 	name string
@@ -228,7 +225,7 @@ func retryOne(rep *vh.Report, c lazyCase) (int, bool) {
 	first := -1
 	for round := 1; round <= 3 && !hung; round++ {
 		for ai, a := range accs {
-			o := vh.GuardTimeout(accessTimeout, a.call)
+			o := guardPatient(a.call)
 			if o.Timeout {
 				rep.Fail("property", c.typ+"."+a.name+":hangs-after-failed-decode",
 					fmt.Sprintf("%s: access #%d through %s never returns (inner payload %s)", c.typ, round, a.name, c.what), rc)
@@ -270,7 +267,7 @@ func retryOne(rep *vh.Report, c lazyCase) (int, bool) {
 	if anyFailed {
 		// Write after the failed accesses: the undecoded bytes, or a failure
 		var re []byte
-		o := vh.GuardTimeout(accessTimeout, func() { re = pack.ToBytesPack(obj) })
+		o := guardPatient(func() { re = pack.ToBytesPack(obj) })
 		if o.Timeout {
 			rep.Fail("property", c.typ+".Write:hangs-after-failed-decode", c.typ+": Write never returns after a failed access ("+c.what+")", rc)
 			return first, isTable
@@ -282,7 +279,7 @@ func retryOne(rep *vh.Report, c lazyCase) (int, bool) {
 			var again pack.Pack
 			if vh.Guard(func() { again = pack.ToPack(re) }).OK() && again != nil {
 				for ai, a := range accessorsOf(again, c.keys) {
-					if ai < len(failed) && failed[ai] && vh.GuardTimeout(accessTimeout, a.call).OK() {
+					if ai < len(failed) && failed[ai] && guardPatient(a.call).OK() {
 						accepted = a.name
 					}
 				}
@@ -427,7 +424,7 @@ func reuseSweep(env *vh.Env, rep *vh.Report, rng *vh.Rng, encs []enc) {
 				continue // (a prefix that decodes is the prefix sweep's finding)
 			}
 			var got []byte
-			o := vh.GuardTimeout(accessTimeout, func() { obj.Read(gio.NewDataInputX(body)); got = bodyBytes(obj) })
+			o := guardPatient(func() { obj.Read(gio.NewDataInputX(body)); got = bodyBytes(obj) })
 			rep.Case("reuse:"+e.typ+":"+hash8(e.b)+"@"+fmt.Sprint(cut), true)
 			rep.Count("reuse:" + o.String())
 			rc := replayCase{Mode: "reuse", Kind: e.kind, Typ: e.typ, Hex: vh.Hex(e.b), N: cut}
